@@ -18,7 +18,7 @@ From TV Require Import Common.LSet.
 Import ListNotations.
 Open Scope Z_scope.
 
-Inductive exn := TraitError | ValueError | AttributeError | RuntimeError | OtherError.
+Inductive exn := TraitError | ValueError | AttributeError | RuntimeError | NotifierNotFound | OtherError.
 Inductive outcome := Ok | Raise (e : exn).
 
 Inductive plan :=
@@ -44,7 +44,10 @@ Record st := mkSt {
   c : option Z;                (* cache of cached_property c observing x       *)
   ad : Z;                      (* ad = Supports(IProto)       stored adapted value atom *)
   y : option Z;                (* y = V() with a _y_default method and a static handler; None = not materialised *)
-  ad2 : Z                      (* ad2 = Instance(IProto, adapt="default"): -1 = the default None *)
+  ad2 : Z;                     (* ad2 = Instance(IProto, adapt="default"): -1 = the default None *)
+  oreg : nat;                  (* how many times the observer with the user filter match(flt) is registered *)
+  zz : list Z;                 (* values of the traits zz0, zz1, ... added with add_trait (the filter matches them) *)
+  ade : Z                      (* ade = Either(Supports(IProto), Instance(Q)): stored atom, -5 = None *)
 }.
 
 Inductive op :=
@@ -61,6 +64,11 @@ Inductive op :=
 | SetY (v : Z) | ReadY
 | SetAd2 (chain : option nat) (v : Z)      (* adapt="default": None = no adaptation path, the default (None) is stored *)
 | SetXQ (v : Z)                            (* trait_setq(x=v): validated assignment with notifications switched off *)
+| ObsAdd | ObsRemove                       (* observe(h6, match(flt)) / the same with remove=True: the user filter is a
+                                              deciding callback, called [fcalls (length zz)] times by the walk *)
+| AddZ                                     (* add_trait("zz<n>", Int()) *)
+| SetZ (i : nat) (v : Z)                   (* assign the i-th added trait (index taken modulo their number) *)
+| SetAdE (chain : nat) (v : Z)             (* adaptation as one alternative of a compound trait *)
 | Opaque (tag : nat).                      (* an operation outside the model (observer registration with a user filter,
                                               add_trait, ...): no effect on the modelled fields; only the law on the
                                               implementation's observations (faulted object vs twin) speaks about it *)
@@ -72,6 +80,7 @@ Definition H_x_observe := 2%nat.    (* observe(h, 'x') *)
 Definition H_l_static := 3%nat.     (* _l_items_changed *)
 Definition H_l_observe := 4%nat.    (* observe(h, 'l:items') *)
 Definition H_y_static := 5%nat.     (* _y_changed *)
+Definition H_z_observe := 6%nat.    (* the observer registered with the user filter *)
 
 Definition logent := (nat * Z * Z)%type.
 
@@ -94,6 +103,7 @@ Section WithCallbacks.
   Variable mdef_value : Z.               (* what _m_default returns *)
   Variable adapt_value : nat -> Z -> Z.  (* the adapter produced by a chain of that length *)
   Variable ydef_value : Z.               (* what _y_default returns *)
+  Variable fcalls : nat -> nat.          (* filter invocations of one registration walk, given the number of zz traits *)
 
   (* one invocation of the validator as the n-th deciding callback *)
   Definition call_vld (pl : plan) (n : nat) (v : Z) : res Z :=
@@ -141,18 +151,21 @@ Section WithCallbacks.
   Definition run_handlers (pl : plan) (hs : list nat) (a b : Z) : list logent :=
     map (fun j => (j, a, b)) (filter (fun j => negb (handler_fault pl j)) hs).
 
-  Definition set_x v s0 := mkSt v (t s0) (l s0) (d s0) (s s0) (f s0) (m s0) (p s0) (c s0) (ad s0) (y s0) (ad2 s0).
-  Definition set_t v s0 := mkSt (x s0) v (l s0) (d s0) (s s0) (f s0) (m s0) (p s0) (c s0) (ad s0) (y s0) (ad2 s0).
-  Definition set_l v s0 := mkSt (x s0) (t s0) v (d s0) (s s0) (f s0) (m s0) (p s0) (c s0) (ad s0) (y s0) (ad2 s0).
-  Definition set_d v s0 := mkSt (x s0) (t s0) (l s0) v (s s0) (f s0) (m s0) (p s0) (c s0) (ad s0) (y s0) (ad2 s0).
-  Definition set_s v s0 := mkSt (x s0) (t s0) (l s0) (d s0) v (f s0) (m s0) (p s0) (c s0) (ad s0) (y s0) (ad2 s0).
-  Definition set_f v s0 := mkSt (x s0) (t s0) (l s0) (d s0) (s s0) v (m s0) (p s0) (c s0) (ad s0) (y s0) (ad2 s0).
-  Definition set_m v s0 := mkSt (x s0) (t s0) (l s0) (d s0) (s s0) (f s0) v (p s0) (c s0) (ad s0) (y s0) (ad2 s0).
-  Definition set_p v s0 := mkSt (x s0) (t s0) (l s0) (d s0) (s s0) (f s0) (m s0) v (c s0) (ad s0) (y s0) (ad2 s0).
-  Definition set_c v s0 := mkSt (x s0) (t s0) (l s0) (d s0) (s s0) (f s0) (m s0) (p s0) v (ad s0) (y s0) (ad2 s0).
-  Definition set_ad v s0 := mkSt (x s0) (t s0) (l s0) (d s0) (s s0) (f s0) (m s0) (p s0) (c s0) v (y s0) (ad2 s0).
-  Definition set_y v s0 := mkSt (x s0) (t s0) (l s0) (d s0) (s s0) (f s0) (m s0) (p s0) (c s0) (ad s0) v (ad2 s0).
-  Definition set_ad2 v s0 := mkSt (x s0) (t s0) (l s0) (d s0) (s s0) (f s0) (m s0) (p s0) (c s0) (ad s0) (y s0) v.
+  Definition set_x v s0 := mkSt v (t s0) (l s0) (d s0) (s s0) (f s0) (m s0) (p s0) (c s0) (ad s0) (y s0) (ad2 s0) (oreg s0) (zz s0) (ade s0).
+  Definition set_t v s0 := mkSt (x s0) v (l s0) (d s0) (s s0) (f s0) (m s0) (p s0) (c s0) (ad s0) (y s0) (ad2 s0) (oreg s0) (zz s0) (ade s0).
+  Definition set_l v s0 := mkSt (x s0) (t s0) v (d s0) (s s0) (f s0) (m s0) (p s0) (c s0) (ad s0) (y s0) (ad2 s0) (oreg s0) (zz s0) (ade s0).
+  Definition set_d v s0 := mkSt (x s0) (t s0) (l s0) v (s s0) (f s0) (m s0) (p s0) (c s0) (ad s0) (y s0) (ad2 s0) (oreg s0) (zz s0) (ade s0).
+  Definition set_s v s0 := mkSt (x s0) (t s0) (l s0) (d s0) v (f s0) (m s0) (p s0) (c s0) (ad s0) (y s0) (ad2 s0) (oreg s0) (zz s0) (ade s0).
+  Definition set_f v s0 := mkSt (x s0) (t s0) (l s0) (d s0) (s s0) v (m s0) (p s0) (c s0) (ad s0) (y s0) (ad2 s0) (oreg s0) (zz s0) (ade s0).
+  Definition set_m v s0 := mkSt (x s0) (t s0) (l s0) (d s0) (s s0) (f s0) v (p s0) (c s0) (ad s0) (y s0) (ad2 s0) (oreg s0) (zz s0) (ade s0).
+  Definition set_p v s0 := mkSt (x s0) (t s0) (l s0) (d s0) (s s0) (f s0) (m s0) v (c s0) (ad s0) (y s0) (ad2 s0) (oreg s0) (zz s0) (ade s0).
+  Definition set_c v s0 := mkSt (x s0) (t s0) (l s0) (d s0) (s s0) (f s0) (m s0) (p s0) v (ad s0) (y s0) (ad2 s0) (oreg s0) (zz s0) (ade s0).
+  Definition set_ad v s0 := mkSt (x s0) (t s0) (l s0) (d s0) (s s0) (f s0) (m s0) (p s0) (c s0) v (y s0) (ad2 s0) (oreg s0) (zz s0) (ade s0).
+  Definition set_y v s0 := mkSt (x s0) (t s0) (l s0) (d s0) (s s0) (f s0) (m s0) (p s0) (c s0) (ad s0) v (ad2 s0) (oreg s0) (zz s0) (ade s0).
+  Definition set_ad2 v s0 := mkSt (x s0) (t s0) (l s0) (d s0) (s s0) (f s0) (m s0) (p s0) (c s0) (ad s0) (y s0) v (oreg s0) (zz s0) (ade s0).
+  Definition set_oreg v s0 := mkSt (x s0) (t s0) (l s0) (d s0) (s s0) (f s0) (m s0) (p s0) (c s0) (ad s0) (y s0) (ad2 s0) v (zz s0) (ade s0).
+  Definition set_zz v s0 := mkSt (x s0) (t s0) (l s0) (d s0) (s s0) (f s0) (m s0) (p s0) (c s0) (ad s0) (y s0) (ad2 s0) (oreg s0) v (ade s0).
+  Definition set_ade v s0 := mkSt (x s0) (t s0) (l s0) (d s0) (s s0) (f s0) (m s0) (p s0) (c s0) (ad s0) (y s0) (ad2 s0) (oreg s0) (zz s0) v.
 
   Definition raise (e : exn) (s0 : st) : st * outcome * list logent := (s0, Raise e, []).
   Definition done (s1 : st) (lg : list logent) : st * outcome * list logent := (s1, Ok, lg).
@@ -307,6 +320,39 @@ Section WithCallbacks.
         | ROk v' => done (set_x v' s0) []
         end
     | Opaque _ => done s0 []
+    | ObsAdd =>                                   (* observation/_observe.py add_or_remove_notifiers: the walk calls the
+                                                    user filter; a raising filter undoes the walk (shared undo log) *)
+        match call_chain pl 0 (fcalls (length (zz s0))) with
+        | Some e => raise e s0
+        | None => done (set_oreg (S (oreg s0)) s0) []
+        end
+    | ObsRemove =>
+        match oreg s0 with
+        | O => raise NotifierNotFound s0          (* nothing registered: fails before the filter is called *)
+        | S n => match call_chain pl 0 (fcalls (length (zz s0))) with
+                 | Some e => raise e s0
+                 | None => done (set_oreg n s0) []
+                 end
+        end
+    | AddZ => done (set_zz (zz s0 ++ [0]) s0) []  (* the filter runs inside the trait_added notification: no deciding call *)
+    | SetZ i v =>
+        match length (zz s0) with
+        | O => done s0 []
+        | S _ =>
+            let k := Nat.modulo i (length (zz s0)) in
+            let old := nth k (zz s0) 0 in
+            if Z.eqb v old then done s0 []
+            else done (set_zz (firstn k (zz s0) ++ [v] ++ skipn (S k) (zz s0)) s0)
+                      (match oreg s0 with
+                       | O => []
+                       | S _ => run_handlers pl [H_z_observe] (Z.of_nat k) v
+                       end)
+        end
+    | SetAdE chain v =>
+        match call_chain pl 0 chain with
+        | Some e => raise e s0
+        | None => done (set_ade (adapt_value chain v) s0) []
+        end
     | SetAd2 chain v =>
         match chain with
         | None => done (set_ad2 (-1) s0) []
